@@ -82,13 +82,6 @@ func TestVerifC08KnownDualStackImbalance(t *testing.T) {
 		         {"kind":"episode","a":2,"b":8,"c":2,"faults":[{"kind":"describe","mode":"before","code":"InvalidOperation.Ipv6CountExceeded"},{"kind":"create","mode":"after","code":"QuotaExceeded.PrivateIpAddress"}]}]}`)
 }
 
-func TestVerifC08KnownLostWrite(t *testing.T) {
-	c02Witness(t, "C08", "C08-lost-write-no-resync",
-		"two consecutive status-update conflicts: the second failed write loses the result of the full sync the first one triggered (syncWithAPI clears NeedSyncOpenAPI, StatusChanged is already false), the controller forgets an interface it was told about and requests another one beyond the flavor",
-		`{"mode":"C08","node":{"v4":true,"adapters":2,"v4_per":1,"v6_per":1,"trunk":true,"min":0,"max":0,"vsw":[{"free":500}],"policy":"ordered","synced":true},"slots":[{"host_net":true},{"host_net":true},{"host_net":true}],
-		  "ops":[{"kind":"apifault","b":2,"api":"conflict"},{"kind":"reconcile","b":3}]}`)
-}
-
 func TestVerifC08KnownSyncDropsDetachedENI(t *testing.T) {
 	c02Witness(t, "C08", "C08-sync-drops-detached-eni",
 		"an interface recorded as Deleting after a failed attach and a failed rollback delete is dropped from the record by the next full sync without being deleted (the by-id query is also filtered by instance id, a detached interface has none; non-secondary kinds are dropped unconditionally): it leaks",
@@ -101,4 +94,11 @@ func TestVerifC08KnownEFLOPartialKeyCollision(t *testing.T) {
 		"EFLO: an address that was created but did not become available is recorded under the empty address key; a second one finds that key taken and is forgotten, the controller then requests beyond the per-interface limit",
 		`{"mode":"C08","node":{"v4":true,"eflo":true,"adapters":2,"v4_per":3,"v6_per":3,"min":0,"max":0,"vsw":[{"free":500}],"policy":"ordered","synced":true},"slots":[{},{},{},{}],
 		  "ops":[{"kind":"create","a":0},{"kind":"episode","a":1,"b":3,"c":3,"faults":[{"kind":"assign4","mode":"partial","code":"1013"},{"kind":"assign4","mode":"partial","code":"1013"}]},{"kind":"burst","a":0,"b":2}]}`)
+}
+
+func TestVerifC08KnownExhaustedVSwitchHidesIdle(t *testing.T) {
+	c02Witness(t, "C08", "C08-exhausted-vswitch-hides-idle",
+		"validateENI filters an interface out when the vSwitch cache says its vSwitch has no address left, and assignEniWithOptions then does not count the idle addresses it holds: min = max = 1, the only interface (2 pods + 1 idle address) used up vSwitch vsw-0, a second vSwitch has room - every pass creates a new interface for the 'missing' idle address and adjustPool releases it again",
+		`{"mode":"C08","node":{"v4":true,"adapters":4,"v4_per":3,"v6_per":3,"min":1,"max":1,"vsw":[{"free":3},{"free":500}],"policy":"ordered","synced":true},
+		  "slots":[{},{},{}],"ops":[{"kind":"burst","a":0,"b":2}]}`)
 }
